@@ -69,6 +69,8 @@ def as_material_array(material, basis, phases, chemicals):
     if isa(material, tmo.Stream):
         if phases and material.phases != phases:
             raise ValueError("reaction and stream phases do not match")
+        if not phases and len(material.phases) > 1:
+            raise ValueError("reaction has no phases; cannot react a multi-phase stream")
         if material.chemicals is chemicals:
             config = None
         else:
